@@ -76,7 +76,9 @@ void PacketWriter::write(PDU& pdu, const struct timeval& tv) {
     header.len = static_cast<bpf_u_int32>(pdu.advertised_size());
     PDU::serialization_type buffer = pdu.serialize();
     header.caplen = static_cast<bpf_u_int32>(buffer.size());
-    pcap_dump((u_char*)dumper_, &header, &buffer[0]);
+    // An empty serialization has no first element to point at
+    const u_char empty_frame = 0;
+    pcap_dump((u_char*)dumper_, &header, buffer.empty() ? &empty_frame : &buffer[0]);
 }
 
 void PacketWriter::init(const string& file_name, int link_type) {
